@@ -12,7 +12,10 @@ SPEC = {
     'deductive': [
         ('K-update(ties keep the stored entry)', 'update', '^update:returns-replaced'),
         ('K-prune(tie extension)', 'prune', 'prune:(all-ties|only-ties|dropped-are|kept-is|no-postponed)'),
-        ("_build_node_path(choice is a function of the listing order: first of equals)", 'final_choice', r'first')],
+        ("_build_node_path(choice is a function of the listing order: first of equals)", 'final_choice', r'first'),
+        ("_match_states(every call of next() gets segment objects of its own: next() writes into them)", 'match_states', '^fresh:'),
+        ("non-emitting search, inner levels(segment objects per call)", 'ne_inner', '^fresh:'),
+        ("non-emitting search, link to the next observation(segment objects per call)", 'ne_end', '^fresh:')],
     'bounded': [
         ('map-order-permutations', suites.case_C10, 1500, 25000, RULE + '; ' + 'non-trivial = >= 3 nodes or an exact tie in some column', '')],
 }
